@@ -45,7 +45,7 @@ def run(tier, seed):
     ck = harness.Check(PID, tier, seed)
     ck.encode("tomography.stabilizer_measurement_circuit", "tomography.StabilizerMeasurementFitter.expectation_values/density_matrix", "tomography.CircuitResult",
               "tomography._compute_expectation_value", "tomography.z_pauli_from_bitstring", "stabilizer_circuits.get_readout_circuit")
-    ck.bounds += ["the state is symbolic (4^n real unknowns); the stabilizer: n=2 every valid tableau x sign vector; n=3 seeded partitions; n=4..6 class-graph families (symbolic one-qubit window, seeded layer/basis, 2-4 sign vectors): all classes for n=4, structure representatives + seeded classes for n=5,6; plus EVERY class of EVERY configuration once (quick: a seeded third of the 6-qubit classes)",
+    ck.bounds += ["the state is symbolic (4^n real unknowns); the stabilizer: n=2 every valid tableau x sign vector; n=3 seeded partitions; n=4..6 class-graph families (symbolic one-qubit window, seeded layer/basis, 2-4 sign vectors): all classes for n=4, structure representatives + seeded classes for n=5,6; plus EVERY class of EVERY configuration once (quick: a seeded fifth of the 6-qubit classes)",
                   "per stabilizer: exactly 2^n keys = unsigned group elements, every value == r_P with the true sign (LRA validity)"]
     ck.outside += ["floating point", "measured-qubit lists (C11)"]
     ck.validated += ztab.validate_against_qiskit(seed=seed, trials=100)
@@ -54,14 +54,14 @@ def run(tier, seed):
     f3 = [j for j in pipeline.f3_jobs(tier, seed, signs=("affine", 1)) if j["n"] == 3]
     jobs += f3[:4] if tier == "quick" else f3[:40]
     for j in pipeline.fc_jobs(tier, seed, signs_quick=("affine", 1), signs_thorough=("affine", 2)):
-        if tier == "quick" and j["n"] >= 5 and rnd.random() < 0.6:
+        if tier == "quick" and j["n"] >= 5 and rnd.random() < 0.8:
             continue
         j = dict(j)
         j["window"] = j["window"][:1]
         jobs.append(j)
     # every class of every configuration (table graph, seeded layer / basis / one sign vector); quick: a seeded third of n=6
     for j in pipeline.fc0_jobs("quick", seed, signs=("affine", 0)):
-        if j["n"] == 6 and tier == "quick" and (j["cls"] + seed) % 3 != 0:
+        if j["n"] == 6 and tier == "quick" and (j["cls"] + seed) % 5 != 0:
             continue
         jobs.append(j)
     cands = []
